@@ -103,8 +103,12 @@ Arguments Ok {A} a. Arguments Err {A} e. Arguments Panic {A}. Arguments Diverge 
 Record dial := {
   d_tc : bool;            (* Dialect::supports_trailing_commas *)
   d_proj_tc : bool;       (* Dialect::supports_projection_trailing_commas *)
-  d_reserved : list str   (* keywords::RESERVED_FOR_COLUMN_ALIAS, Debug names *)
+  d_reserved : list str;  (* keywords::RESERVED_FOR_COLUMN_ALIAS, Debug names *)
+  d_id : N;               (* Dialect::dialect(): the identity the dialect REPORTS (what dialect_of! tests) *)
+  d_flag : N -> bool      (* every other capability answer (supports_*, ...), by method code *)
 }.
+Definition mk_dial (tcf ptc : bool) (reserved : list str) : dial :=
+  {| d_tc := tcf; d_proj_tc := ptc; d_reserved := reserved; d_id := 0; d_flag := fun _ => false |}.
 
 Definition M (A : Type) := dial -> mstate -> outcome A * mstate.
 
@@ -138,6 +142,10 @@ Definition get_tc : M bool := fun _ s => (Ok (tc s), s).
 Definition get_pst : M pstate := fun _ s => (Ok (pst s), s).
 Definition ask_reserved : M (list str) := fun d s => (Ok (d_reserved d), s).
 Definition ask_proj_tc : M bool := fun d s => (Ok (d_proj_tc d), s).
+(** [dialect_of!(self is A | B | ...)]: the reported identity is one of the given ones. *)
+Definition dialect_is (ids : list N) : M bool := fun d s => (Ok (existsb (N.eqb (d_id d)) ids), s).
+(** [self.dialect.supports_xyz()] and the like. *)
+Definition ask_flag (n : N) : M bool := fun d s => (Ok (d_flag d n), s).
 
 (** * Cursor primitives *)
 
